@@ -167,7 +167,8 @@ class Pop:
         retired = alter >= 63 and r.random() < 0.8
         working = adult and not retired and r.random() < 0.75
         p["geburtsjahr"] = self.year - int(alter)
-        p["geburtsmonat"] = r.randint(1, 12)
+        # a person aged 0 was born this year, before the policy date
+        p["geburtsmonat"] = r.randint(1, 12) if alter > 0 else r.randint(1, max(1, int(self.date[5:7]) - 1))
         p["geburtstag"] = r.randint(1, 28)
         p["kind"] = alter < 18 or (alter < 25 and r.random() < 0.5)
         p["rentner"] = retired
